@@ -18,6 +18,7 @@ use serde_json::json;
 
 const MARK_A: &[u8] = b"MARKER-A-3f9c";
 const MARK_B: &[u8] = b"MARKER-B-77e1";
+const MARK_C: &[u8] = b"MARKER-C-a2a2";
 const MARK_OUT: &[u8] = b"MARKER-OUT-c0de";
 const MARK_PART: &[u8] = b"MARKER-PART-51ab";
 const MARK_META: &str = "MARKER-META-B-90f2";
@@ -44,7 +45,8 @@ fn store() -> Store {
     std::fs::write(top.join("top-sentinel.txt"), MARK_OUT).unwrap();
     let fs = FileSystem::new(&root).expect("fs");
     let upload_id = block_on(async {
-        for (b, mark) in [("bucket-a", MARK_A), ("bucket-b", MARK_B)] {
+        // bucket-a2: a sibling whose name has the addressed bucket's name as a proper string prefix
+        for (b, mark) in [("bucket-a", MARK_A), ("bucket-b", MARK_B), ("bucket-a2", MARK_C)] {
             fs.create_bucket(req(CreateBucketInput { bucket: b.into(), ..gen_base() }, Some("alice"))).await.unwrap();
             let mut meta = Metadata::default();
             meta.insert("m".into(), if b == "bucket-b" { MARK_META.into() } else { "meta-a".into() });
@@ -64,7 +66,7 @@ fn gen_base<T: crate::dgen::Gen>() -> T {
 }
 
 fn hostile_keys() -> Vec<String> {
-    let seg = ["a", ".", "..", "", "bucket-b", "secret", "@META", "%2e%2e", "%2f", "@UPLOAD", "outside", "sentinel.txt"];
+    let seg = ["a", ".", "..", "", "bucket-b", "bucket-a2", "secret", "@META", "%2e%2e", "%2f", "outside", "sentinel.txt"];
     let mut out: Vec<String> = Vec::new();
     let meta_name = format!(".bucket-{}.object-{}.metadata.json", b64("bucket-b"), b64("secret"));
     let fix = |s: &str| -> String {
@@ -233,6 +235,7 @@ fn judge_changes(op: Op, hostile: &str, changes: &[String], upload_id: &str) -> 
                 continue;
             }
             if rel.starts_with("bucket-a") || rel.starts_with("bucket-b") {
+                // (bucket-a2 included)
                 v.push(("other-bucket-changed", c.clone()));
             } else if rel.starts_with('.') {
                 v.push(("bookkeeping-changed", c.clone()));
@@ -244,7 +247,7 @@ fn judge_changes(op: Op, hostile: &str, changes: &[String], upload_id: &str) -> 
         if rel == "bucket-a" || rel.starts_with("bucket-a/") {
             continue;
         }
-        if rel.starts_with("bucket-b") {
+        if rel.starts_with("bucket-b") || rel.starts_with("bucket-a2") {
             v.push(("other-bucket-changed", c.clone()));
             continue;
         }
@@ -310,7 +313,7 @@ pub fn run(ctx: &Ctx) -> (Acc, Report) {
             for (kind, detail) in judge_changes(op, h, &changes, &st.upload_id) {
                 a.fail(&format!("C17/{kind}/{op:?}"), h.len() as u64, id(), format!("{op:?} addressed to bucket-a with {h:?} ({code}): {detail}"), json!({"input": h, "changes": changes}));
             }
-            for (what, m) in [("other-bucket-read", MARK_B), ("outside-root-read", MARK_OUT), ("other-bucket-read", MARK_META.as_bytes()), ("foreign-upload-read", MARK_PART)] {
+            for (what, m) in [("other-bucket-read", MARK_B), ("other-bucket-read", MARK_C), ("outside-root-read", MARK_OUT), ("other-bucket-read", MARK_META.as_bytes()), ("foreign-upload-read", MARK_PART)] {
                 if find(&read, m) {
                     a.fail(&format!("C17/{what}/{op:?}"), h.len() as u64, id(), format!("{op:?} addressed to bucket-a with {h:?} returned bytes of {}", String::from_utf8_lossy(m)), json!({"input": h}));
                 }
@@ -376,7 +379,7 @@ pub fn run(ctx: &Ctx) -> (Acc, Report) {
                 for (kind, detail) in judge_changes(op, k, &changes, &st.upload_id) {
                     a.fail(&format!("C17/{kind}/{op:?}"), k.len() as u64 + 1000, id(), format!("{method} {} ({}): {detail}", r.target, out.verdict()), json!({"changes": changes}));
                 }
-                for (what, m) in [("other-bucket-read", MARK_B), ("outside-root-read", MARK_OUT), ("other-bucket-read", MARK_META.as_bytes()), ("foreign-upload-read", MARK_PART)] {
+                for (what, m) in [("other-bucket-read", MARK_B), ("other-bucket-read", MARK_C), ("outside-root-read", MARK_OUT), ("other-bucket-read", MARK_META.as_bytes()), ("foreign-upload-read", MARK_PART)] {
                     if find(&read, m) {
                         a.fail(&format!("C17/{what}/{op:?}"), k.len() as u64 + 1000, id(), format!("{method} {} returned bytes of {}", r.target, String::from_utf8_lossy(m)), json!({}));
                     }
@@ -391,7 +394,7 @@ pub fn run(ctx: &Ctx) -> (Acc, Report) {
     });
     let rep = Report {
         level: "exploration",
-        rule: format!("{n_keys} hostile strings (all sequences of 1..3 segments over {{a, ., .., empty, bucket-b, secret, the real metadata file name of another bucket's object, %2e%2e, %2f, @UPLOAD, outside, sentinel.txt}} joined by '/', with and without a leading '/', plus 4 deep escapes) x 18 operations at the S3 trait (object get/head/put/delete/delete-objects/copy source/copy destination/list prefix/create-multipart/upload-part-copy source/put-then-get-then-delete; hostile upload ids for list-parts/complete/abort/upload-part by a foreign identity incl. the victim's real id and its 8-character prefix; hostile bucket names for create/delete/head bucket), and through S3Service::call for GET/PUT/DELETE/copy in literal, fully percent-encoded and %2e%2e spellings; store: two buckets with marked objects and metadata, one foreign open upload with a marked part, a marked sentinel tree beside and above the root. Oracle: whole-tree snapshot diff + marker search in everything read back. Distinct by id."),
+        rule: format!("{n_keys} hostile strings (all sequences of 1..3 segments over {{a, ., .., empty, bucket-b, bucket-a2, secret, the real metadata file name of another bucket's object, %2e%2e, %2f, outside, sentinel.txt}} joined by '/', with and without a leading '/', plus 4 deep escapes) x 18 operations at the S3 trait (object get/head/put/delete/delete-objects/copy source/copy destination/list prefix/create-multipart/upload-part-copy source/put-then-get-then-delete; hostile upload ids for list-parts/complete/abort/upload-part by a foreign identity incl. the victim's real id and its 8-character prefix; hostile bucket names for create/delete/head bucket), and through S3Service::call for GET/PUT/DELETE/copy in literal, fully percent-encoded and %2e%2e spellings; store: three buckets with marked objects and metadata (one sibling's name has the addressed bucket's name as a proper string prefix), one foreign open upload with a marked part, a marked sentinel tree beside and above the root. Oracle: whole-tree snapshot diff + marker search in everything read back. Distinct by id."),
         exhaustive: true,
         extra: json!({"hostile_strings": n_keys}),
         assumptions: vec!["symbolic links inside the root are not part of the space".into(), "file contents, not mtimes, are compared".into()],
